@@ -557,4 +557,7 @@ def run(an: Analysis, rep):
     rep.run(c07.r07a, an, shj, enc)
     rep.run(c07.r07b, an, shj, defs)
     rep.run(c07.r07r, an, shj)
+    from . import json_fold as _jf
+    rep.run(_jf.fold_rule, an, shj)
+    rep.run(_jf.encode_fold_rule, an, shj)
     rep.stats.update(an.stats([it]))
